@@ -12,7 +12,9 @@ import (
 	"encoding/binary"
 	"fmt"
 	"path/filepath"
+	"runtime/debug"
 	"strconv"
+	"strings"
 	"testing"
 
 	"github.com/cockroachdb/pebble/cockroachkvs"
@@ -176,6 +178,26 @@ func comparerOf(fam string) *base.Comparer {
 	panic("unknown family " + fam)
 }
 
+// shortStack names the innermost pebble frames of a panic (for the replay file).
+func shortStack() string {
+	var fr []string
+	for _, l := range strings.Split(string(debug.Stack()), "\n") {
+		l = strings.TrimSpace(l)
+		if strings.Contains(l, ".go:") && !strings.Contains(l, "/runtime/") && !strings.Contains(l, "/testing/") {
+			if !strings.Contains(l, "internal/verif/encdrv") {
+				if i := strings.LastIndex(l, " +0x"); i > 0 {
+					l = l[:i]
+				}
+				fr = append(fr, filepath.Base(filepath.Dir(l))+"/"+filepath.Base(l))
+			}
+		}
+		if len(fr) >= 4 {
+			break
+		}
+	}
+	return strings.Join(fr, " < ")
+}
+
 func sgn(x int) int { return cmp.Compare(x, 0) }
 
 type c35 struct {
@@ -196,7 +218,7 @@ func (c *c35) guarded(op string, base Ev, f func(e Ev)) {
 	func() {
 		defer func() {
 			if r := recover(); r != nil {
-				e["err"] = fmt.Sprint("panic: ", r)
+				e["err"] = fmt.Sprint("panic: ", r, " @ ", shortStack())
 			}
 		}()
 		f(e)
